@@ -368,11 +368,16 @@ def main(argv):
         replay = rest[1]
     seed = int(os.environ.get("VERIF_SEED", "0") or 0)
     try:
-        return run(prop, tier, seed, replay)
+        rc = run(prop, tier, seed, replay)
     except Exception:
         traceback.print_exc()
         print("TOOL-FAILURE")
-        return 2
+        rc = 2
+    sys.stdout.flush()
+    sent = os.environ.get("VERIF_SENTINEL")
+    if sent:
+        open(sent, "w").write(str(rc))
+    return rc
 
 
 if __name__ == "__main__":
